@@ -7,6 +7,7 @@ import (
 	"net/mail"
 	"net/url"
 	"regexp"
+	"strings"
 	"sync"
 	"time"
 
@@ -88,7 +89,7 @@ func ValidateFormat(name string, val string, f Format) error {
 	case FormatDate:
 		_, err = time.Parse(time.DateOnly, val)
 	case FormatDateTime:
-		_, err = time.Parse(time.RFC3339, val)
+		err = validateDateTime(val)
 	case FormatUUID:
 		err = validateUUID(val)
 	case FormatEmail:
@@ -159,6 +160,27 @@ func ValidatePattern(name, val, p string) error {
 	}
 	if !r.MatchString(val) {
 		return InvalidPatternError(name, val, p)
+	}
+	return nil
+}
+
+// validateDateTime returns an error if val is not a RFC3339 date-time value.
+// time.Parse alone is too lenient: it accepts a one digit hour, a comma before
+// the fractional seconds and time offsets up to 24:60 (see golang/go#54580).
+func validateDateTime(val string) error {
+	if _, err := time.Parse(time.RFC3339, val); err != nil {
+		return err
+	}
+	switch {
+	case len(val) < len("2006-01-02T15:04:05Z") || val[len("2006-01-02T15")] != ':':
+		return fmt.Errorf("%q: hour must have two digits", val)
+	case strings.IndexByte(val, ',') >= 0:
+		return fmt.Errorf("%q: fractional seconds must follow a '.'", val)
+	case val[len(val)-1] != 'Z':
+		// time.Parse made sure the value ends with "+hh:mm" or "-hh:mm".
+		if off := val[len(val)-len("07:00"):]; off[:2] > "23" || off[3:] > "59" {
+			return fmt.Errorf("%q: time offset out of range", val)
+		}
 	}
 	return nil
 }
